@@ -66,7 +66,8 @@ PROPS["C12"] = dict(
 PROPS["C05"] = dict(
     lean_modules=["QuaiVerif.Props.C05"],
     areas=[dict(name="evm", n_quick=2500, n_thorough=40000, seeds_thorough=3, n_search=8000),
-           dict(name="c07", n_quick=2, n_thorough=12, seeds_thorough=2, n_search=6, timeout=3000)],
+           dict(name="c07", n_quick=2, n_thorough=12, seeds_thorough=2, n_search=6, timeout=3000),
+           dict(name="lockup", n_quick=600, n_thorough=12000, seeds_thorough=2, n_search=2500, preamble=lockup_preamble)],
     facts=["etx_exits"],
     rule="a case is one real interpreter run: (etx/conv) a contract executing one ETX / CONVERT with generated destination, value, gas limit, tip/fee cap or gas "
          "price (incl. zero and near-2^256 values), balance around the total, ETX-cache length (incl. 65535..65537), valid/malformed/empty access-list blob, "
@@ -131,7 +132,7 @@ PROPS["C18"] = dict(
 
 PROPS["C04"] = dict(
     lean_modules=["QuaiVerif.Props.C04", "QuaiVerif.Props.C04b"],
-    areas=[dict(name="etxq", n_quick=60, n_thorough=1500, seeds_thorough=2, n_search=200, timeout=3000),
+    areas=[dict(name="etxq", spec_ops=("commit",), n_quick=60, n_thorough=1500, seeds_thorough=2, n_search=200, timeout=3000),
            dict(name="c04h", n_quick=12, n_thorough=150, seeds_thorough=3, n_search=16, timeout=3000, confirm_diff=True)],
     rule="a case is one history of 5-300 PushETX / PushETXs(0-3) / PopETX / ReadETX / counter reads on a real StateDB ETX trie with CommitEtxs+reload at "
          "arbitrary points, over real ExternalTx objects (random value/data/access list/type); includes empty-queue pops and index growth past one byte; plus a "
@@ -156,7 +157,7 @@ PROPS["C04"] = dict(
 
 PROPS["C20"] = dict(
     lean_modules=["QuaiVerif.Props.C20"],
-    areas=[dict(name="conv", n_quick=800, n_thorough=20000, seeds_thorough=3, n_search=3000),
+    areas=[dict(name="conv", spec_ops=("vol", "q2u", "u2q", "fmd"), n_quick=800, n_thorough=20000, seeds_thorough=3, n_search=3000),
            dict(name="c13chain", n_quick=3, n_thorough=30, seeds_thorough=2, n_search=8, timeout=3000),
            dict(name="c04h", n_quick=12, n_thorough=150, seeds_thorough=3, n_search=16, timeout=3000, confirm_diff=True)],
     facts=["denominations", "conv_pipeline_fingerprint"],
@@ -260,20 +261,26 @@ PROPS["C15"] = dict(
 NOT_APPLICABLE = {}
 
 PROPS["C06"] = dict(
-    lean_modules=["QuaiVerif.Props.C06"],
-    areas=[dict(name="c06", n_quick=6, n_thorough=40, seeds_thorough=3, n_search=12, timeout=3000)],
+    lean_modules=["QuaiVerif.Props.C06", "QuaiVerif.Props.C06b"],
+    areas=[dict(name="c06", n_quick=6, n_thorough=40, seeds_thorough=3, n_search=12, timeout=3000),
+           dict(name="snap", n_quick=400, n_thorough=20000, seeds_thorough=3, n_search=3000)],
     rule="a case is one 40-block history of a real zone node (core.Slice, blake3pow, blocks assembled by its own worker and mined by the harness): Quai "
          "transfers, contract deployment and storage writes, Qi spends (1-3 inputs, musig), Quai->Qi conversions, lockup-contract claims incl. reverting "
          "ones through the real tx pool; region blocks at which the harness, playing the dominant chains, hands over inbound ETXs (own coinbase / conversion / "
          "redemption ETXs returning, Quai and Qi coinbases with lock bytes 0-3 plain or to the lockup contract with delegate, conversions both ways, "
          "conversion reverts, transfers from other zones); rescaled horizons so lockups mature, epochs roll and trimming runs; 20% of cases stay in the "
          "pre-TimeToStartTx regime with ETX batches of 40-160. Each block is replayed on a leveldb node with snapshots and address index and on a pebble node "
-         "under GOMAXPROCS=1; after every block the 'ut'/'cl' key spaces of all three databases are scanned. Every case non-trivial; distinct by sub-seed",
+         "under GOMAXPROCS=1; after every block the 'ut'/'cl' key spaces of all three databases are scanned. Every case non-trivial; distinct by sub-seed. "
+         "[snap] a case is a chain of 3-16 blocks over 4 accounts x 3 slots on the real snapshot.Tree (empty generated base): per block accounts destructed, "
+         "re-created in the same block, data and slots written / cleared; Cap of the head with 0-3 layers after 45% of the blocks; after every block every root "
+         "is read through the real layers and compared with the layer model (T2) and with the content of applying the blocks in order (T3)",
     level_text="'After every well-formed history the commitment is exactly the database content and the set size its cardinality' (invariant by induction over "
                "blocks) and 'the accumulator is insensitive to the order of a block's additions and removals' (permutation invariance) are Lean theorems over "
                "the ledger model; the model is fed each real block's own bookkeeping (undo records) and its predicted set size / consistency is compared with the "
-               "header and with an independent scan + MuHash of the database; determinism across backends, snapshot/trie reads, GOMAXPROCS and cache warmth is "
-               "observed (replicas must accept every block and hold identical ledgers and receipts), not proved.",
+               "header and with an independent scan + MuHash of the database; determinism across backends, GOMAXPROCS and cache warmth is "
+               "observed (replicas must accept every block and hold identical ledgers and receipts), not proved - except the flat-state layers: 'reading through "
+               "any stack of snapshot diff layers gives the content of applying the blocks in order, and merging layers (flatten, write to disk) changes no read' "
+               "are Lean theorems (C06b) over a layer model compared with the real snapshot.Tree on the same block chains.",
     level_note="PARTIAL: determinism over schedules / backends / caches is sampled by the replicas (T3), the theorem covers the accumulator's order-insensitivity only. "
                "Block processing itself (which entries a block creates) is taken from the implementation's undo records; the per-transaction rules are C01/C13. "
                "Protocol horizons are rescaled (params variables) and the harness plays region/prime: dom-side ETX validation is out of scope. Known finding: an "
@@ -368,7 +375,7 @@ PROPS["C09"] = dict(
 
 PROPS["C08"] = dict(
     lean_modules=["QuaiVerif.Props.C08"],
-    areas=[dict(name="c08", n_quick=40, n_thorough=1500, seeds_thorough=3, n_search=300, timeout=3000)],
+    areas=[dict(name="c08", spec_ops=("seal", "share"), n_quick=40, n_thorough=1500, seeds_thorough=3, n_search=300, timeout=3000)],
     facts=["wo_header_fields", "wo_seal_keys", "wo_seal_keys_conditional", "header_fields", "header_seal_keys", "validate_body_compares"],
     rule="a case is one random sealed-header object: 12 (proof-of-work hash, difficulty) pairs through the real HeaderChain.VerifySeal (blake3pow) and "
          "CheckWorkThreshold - difficulties 0, -1, 1, 2, 3, 2^255, 2^256-1, 2^256, 2^256+1, 2^300, random 1-24 bit values, one really mined header - "
